@@ -251,7 +251,7 @@ func init() {
 	}
 
 	props["C11"] = func(c *Ctx) {
-		c.Res.Rule = "case = vector aggregation nest up to depth 3 (sum avg min max count stddev stdvar with by/without lists: empty, duplicated, non-existent, partial; topk/bottomk with k around the group size; sort/sort_desc) over count_over_time / sum_over_time inputs with partially shared labels x instant or range grid; values distinct for topk/sort (ties are the recorded finding K2); non-trivial = non-empty result; distinct by request line"
+		c.Res.Rule = "case = vector aggregation nest up to depth 3 (sum avg min max count stddev stdvar with by/without lists: empty, duplicated, non-existent, partial; topk/bottomk with k around the group size; sort/sort_desc; a grouping list repeating a label over an inner grouping of the same size) over count_over_time / sum_over_time inputs with partially shared labels x instant or range grid; values distinct for topk/sort (ties are the recorded finding K2); non-trivial = non-empty result; distinct by request line"
 		inner := func(r *rand.Rand) func() *MExpr {
 			return func() *MExpr {
 				e := genRangeExpr(r, true)
@@ -347,7 +347,7 @@ func init() {
 	}
 
 	props["C12"] = func(c *Ctx) {
-		c.Res.Rule = "case = binary operation (12 arithmetic/comparison operators with and without bool, and/or/unless) between two vectors with overlapping / disjoint / empty label sets (different selectors and groupings of count_over_time, vector(c)) or between a vector and a scalar on either side (0, -2, 0.5, 3, 7) x instant or multi-step range grid; values in the exactly representable range; non-trivial = non-empty result; distinct by request line"
+		c.Res.Rule = "case = binary operation (12 arithmetic/comparison operators with and without bool, and/or/unless) between two vectors with overlapping / disjoint / empty label sets (different selectors and groupings of count_over_time, vector(c)) an eighth of the cases: sum by (l) of all lines against sum by (l) of the lines containing a needle, either side the larger, under and/or/unless/-,/,>; or between a vector and a scalar on either side (0, -2, 0.5, 3, 7) x instant or multi-step range grid; values in the exactly representable range; non-trivial = non-empty result; distinct by request line"
 		spec := metricSpec("Metric.eval (binary operations) == Engine.Eval", "c12", func(r *rand.Rand) MetricCase {
 			t := MetricCase{Recs: genMRecs(r, 2+r.Intn(12)), Repeat: 3}
 			operand := func() *MExpr {
